@@ -69,7 +69,10 @@ pub mod git {
     // repository state, the interval, the checkpoint's commit and its pending map
     pub uninterp spec fn all_changes(work: Seq<char>, begin: Option<&str>, end: Option<&str>, cp_id: Seq<char>, pending: Option<HashMap<String, String>>) -> Seq<Seq<char>>;
     #[verifier::external_body] pub async fn get_git_all_changes<'a>(o: &'a GitOptions<'a>, c: &'a tracking::Checkpoint, work_path: &path::Path) -> (r: Result<Vec<Change>, MonorailError>)
-        ensures r matches Ok(v) ==> change_names(v@) == all_changes(work_path@, o.begin, o.end, c.id@, c.pending) { unimplemented!() }
+        ensures r matches Ok(v) ==> change_names(v@) == all_changes(work_path@, o.begin, o.end, c.id@, c.pending),
+            // ... which depends on the checkpoint only through what its file holds (id, view of the pending map)
+            r matches Ok(v) ==> change_names(v@) == all_changes_v(work_path@, o.begin, o.end, c.stored().0, c.stored().1) { unimplemented!() }
+    pub uninterp spec fn all_changes_v(work: Seq<char>, begin: Option<&str>, end: Option<&str>, cp_id: Seq<char>, pending: Option<Map<Seq<char>, String>>) -> Seq<Seq<char>>;
 }
 //!type src/app/checkpoint.rs CheckpointUpdateInput
 pub struct CheckpointUpdateInput<'a> {
@@ -225,7 +228,7 @@ pub struct HandleAnalyzeInput<'a> {
 }
 //!end
 pub struct AnalyzeInput { pub x: u8 }
-pub struct AnalyzeOutput { pub ghost all_targets: bool, pub checkpointed: bool }
+pub struct AnalyzeOutput { pub ghost all_targets: bool, pub checkpointed: bool, pub ghost from_changes: Option<Seq<Seq<char>>> }
 pub mod core_ix {
     use vstd::prelude::*;
     use super::*;
@@ -236,9 +239,10 @@ impl Config { #[verifier::external_body] pub fn get_target_path_set(&self) -> Ha
 // contract of `analyze` as used here (proved in unit analyze): without a change list the answer is checkpointed=false with every
 // configured target; with one it is checkpointed=true
 #[verifier::external_body] pub fn analyze(input: &AnalyzeInput, index: &mut core_ix::Index, changes: Option<Vec<Change>>) -> (r: Result<AnalyzeOutput, MonorailError>)
-    ensures r matches Ok(o) ==> o.checkpointed == (changes is Some) && (changes is None ==> o.all_targets)
+    ensures r matches Ok(o) ==> o.checkpointed == (changes is Some) && (changes is None ==> o.all_targets),
+        r matches Ok(o) ==> o.from_changes == (match changes { Some(v) => Some(change_names(v@)), None => None }),
 { unimplemented!() }
-//!fn src/app/analyze.rs handle_analyze rules=R1,R10,R12 props=C19
+//!fn src/app/analyze.rs handle_analyze rules=R1,R10,R12 props=C19,C02,C07
 pub(crate) async fn handle_analyze<'a>(
     cfg: &'a core::Config,
     input: &HandleAnalyzeInput<'a>,
@@ -249,6 +253,10 @@ pub(crate) async fn handle_analyze<'a>(
 @        // together with every configured target - whatever interval or other options were given; with one, checkpointed=true
 @        res matches Ok(o) ==> (old(w).cp_file is None ==> !o.checkpointed && o.all_targets), // [C19]
 @        res matches Ok(o) ==> (old(w).cp_file is Some ==> o.checkpointed), // [C19]
+@        // C02 / C07: with a checkpoint, what is analyzed is the change provider's answer for the requested interval and THE STORED
+@        // checkpoint - its commit and its pending map, whatever options were given (an explicit --begin replaces the commit, never the
+@        // pending map)
+@        res matches Ok(o) ==> (old(w).cp_file matches Some(st) ==> o.from_changes == Some(git::all_changes_v(work_path@, input.git_opts.begin, input.git_opts.end, st.0, st.1))), // [C02,C07]
 @        final(w).cp_file == old(w).cp_file,
 {
     let changes = match cfg.change_provider.r#use {
